@@ -15,7 +15,7 @@ from fractions import Fraction
 import numpy as np
 
 from common import F, Rng, close_all, digest, err_class, fl, pmat, pvec, rs
-from fpca_util import (trapz_weights, pow2, EigCapture, Fm, Fv, Smat, Svec, curves, dense, grid, quiet, raw_from_call, sel_to_model,
+from fpca_util import (trapz_weights, pow2, special_grids, EigCapture, Fm, Fv, Smat, Svec, curves, dense, grid, quiet, raw_from_call, sel_to_model,
                        sel_to_py)
 
 PROP = "C02"
@@ -94,6 +94,15 @@ def gen_cases(rng: Rng, tier):
             XB, _ = curves(rng, nB, tB, rng.choice(["rough", "lowrank", "smooth"]))
             case["B"] = dict(t=Svec(tB), X=Smat(XB))
         yield case
+    # offset / step ratio and non-uniform × tiny scale (every run, both routes): time stamps far from the origin whose
+    # points fill the mantissa, and irregular grids with steps ≲ 1e-8 (at 0 and at an offset), combined with data scales
+    for i, (label, t) in enumerate(special_grids(rng, rng.randint(6, 9))):
+        for method in ("cov", "gram"):
+            n = rng.randint(4, 7)
+            X, ck = curves(rng, n, t, "smooth" if method == "gram" else rng.choice(["rough", "smooth"]))
+            sc = Fraction(2) ** rng.choice([0, 0, -20, 20])
+            yield dict(kind=method, t=Svec(t), X=Smat([[x * sc for x in r] for r in X]), sel=rng.choice([["int", 2], ["all"]]),
+                       ck=f"grid:{label}", scale=rs(sc))
     # nearly tied leading eigenvalues (every run): λ₂/λ₁ = 0.9 … 0.999 (NOT exactly tied — that is the open finding),
     # one, two and all components, both routes; iterative shortcuts stall here, LAPACK does not
     for ratio in (0.9, 0.97, 0.99, 0.999):
